@@ -4,6 +4,7 @@ import AslProofs.StrRep
 import AslProofs.StrOps
 import AslProofs.StrHist
 import AslProofs.StrExtra
+import AslProofs.CsvNum
 /-!
 # C03 — `asl::String` agrees with a byte-string model and stays in bounds
 
@@ -34,15 +35,21 @@ theorem rep_inv {r : Rep} {s : Bytes} (h : Models r s) :
   · have := h.view; unfold Rep.view at this; rw [this, h.2.1]
   · rw [h.2.1]; exact h.lt_cap
 
-/-- `String()`, `String(const char*, n)`, `String(const char*)`, copy construction, `String(char)`, `repeat` -/
+/-- every non-formatting constructor: `String()`, `String(const char*, n)`, `String(const char*)`,
+    `String(const Array<char>&)` / `String(const ByteArray&)`, copy construction, `String(char)`, `String(bool)`,
+    `repeat(c, n)` for every `int n` (a negative count gives the empty string) — in bounds, invariant established, text as given.
+    (Number and printf constructors: `itoa_atoi` … `printf_retry_total`, `float_ctor_spec`.) -/
 theorem construct_spec :
     Models Rep.empty [] ∧
     (∀ b, NulFree b → ∃ r, ofBytes b = some r ∧ Models r b) ∧
     (∀ b, NulFree b → ∃ r, ofCStr b = some r ∧ Models r b) ∧
+    (∀ b, NulFree b → ∃ r, ofArray b = some r ∧ Models r b) ∧
     (∀ r s, Models r s → ∃ r', copy r = some r' ∧ Models r' s) ∧
     (∀ c, c ≠ 0 → ∃ r, ofChar c = some r ∧ Models r [c]) ∧
-    (∀ c n, c ≠ 0 → ∃ r, repeatChar c n = some r ∧ Models r (List.replicate n c)) :=
-  ⟨empty_models, ofBytes_spec, ofCStr_spec, fun _ _ h => copy_spec h, ofChar_spec, fun c n h => repeatChar_spec c h n⟩
+    (∀ x, ∃ r, ofBool x = some r ∧ Models r (if x then [116, 114, 117, 101] else [102, 97, 108, 115, 101])) ∧
+    (∀ c (n : Int), c ≠ 0 → ∃ r, repeatChar c n = some r ∧ Models r (List.replicate (if n < 0 then 0 else n.toNat) c)) :=
+  ⟨empty_models, ofBytes_spec, ofCStr_spec, ofBytes_spec, fun _ _ h => copy_spec h, ofChar_spec, ofBool_spec,
+   fun c n h => repeatChar_spec c h n⟩
 
 /-- `resize(n)` for every `n` and every storage state (inline, heap below and above 1 KiB; growing or not):
     in bounds, `length() = n`, terminated at `n`, and the first `min(n, old length)` bytes are the old ones -/
@@ -101,21 +108,8 @@ theorem assign_piece_spec {r : Rep} {s : Bytes} (h : Models r s) (off n : Nat) (
 
 /-! ## all histories of in-place mutations on one String -/
 
-/-- what each mutation of the line protocol means on byte strings (the reference model) -/
-theorem mutation_meaning (s : Bytes) :
-    (∀ b, Mut.abs s (.assign b) = b) ∧ (∀ b, Mut.abs s (.append b) = s ++ b) ∧
-    (∀ c, Mut.abs s (.appendChar c) = s ++ [c]) ∧ (∀ x, Mut.abs s (.appendInt x) = s ++ myitoa x) ∧
-    (∀ a b, Mut.abs s (.appendSelf a b) = s ++ (s.drop (piece s.length a b).1).take (piece s.length a b).2) ∧
-    Mut.abs s .plusSelf = s ++ s ∧
-    (∀ a b, Mut.abs s (.assignSelf a b) = (s.drop (piece s.length a b).1).take (piece s.length a b).2) ∧
-    (∀ a, Mut.abs s (.assignTail a) = s.drop (a % (s.length + 1))) ∧ Mut.abs s .selfEq = s ∧
-    Mut.abs s .trim = ((s.dropWhile isSpace).reverse.dropWhile isSpace).reverse ∧ Mut.abs s .clear = [] ∧
-    (∀ a, Mut.abs s (.shrink a) = s.take (a % (s.length + 1))) ∧
-    (∀ n c, Mut.abs s (.grow n c) = s ++ List.replicate n c) ∧ (∀ n c, Mut.abs s (.refill n c) = List.replicate n c) ∧
-    (∀ n, Mut.abs s (.reserve n) = s) ∧ (∀ a, Mut.abs s (.pokeFix a) = s.take (a % (s.length + 1))) ∧
-    (∀ a b, Mut.abs s (.replaceMe a b) = s.map fun c => if c == a then b else c) :=
-  ⟨fun _ => rfl, fun _ => rfl, fun _ => rfl, fun _ => rfl, fun _ _ => rfl, rfl, fun _ _ => rfl, fun _ => rfl, rfl, rfl, rfl,
-   fun _ => rfl, fun _ _ => rfl, fun _ _ => rfl, fun _ => rfl, fun _ => rfl, fun _ _ => rfl⟩
+/- the table of `Mut.abs` (the byte-string meaning of each of the 17 mutations) is spelled out, line by line,
+   in `AslProofs.Str.mutation_meaning` (`AslProofs/StrHist.lean`) -/
 
 /-- every single mutation: in bounds, invariant kept, result = its byte-string meaning -/
 theorem mutation_spec {r : Rep} {s : Bytes} (h : Models r s) (m : Mut) (hv : m.Valid) :
@@ -132,10 +126,14 @@ theorem history_inv (ms : List Mut) {r : Rep} {s : Bytes} (h : Models r s) (hv :
 theorem substring_is_slice {r : Rep} {s : Bytes} (h : Models r s) (i j : Nat) (hij : i ≤ j) (hj : j ≤ s.length) :
     ∃ r', r.substring i j = some r' ∧ Models r' ((s.drop i).take (j - i)) := substring_spec h i j hij hj
 
-/-- `substr(i, n)`: negative `i` counts from the end; the result is at most `n` bytes from there -/
-theorem substr_is_slice {r : Rep} {s : Bytes} (h : Models r s) (i : Int) (n : Nat) (hi : -(s.length : Int) ≤ i) :
-    ∃ r', r.substr i n = some r' ∧ Models r' ((s.drop (if i < 0 then i + s.length else i).toNat).take n) :=
-  substr_spec h i n hi
+/-- `substr(int i, int n)` on a string shorter than 2^31: negative `i` counts from the end, the result is at most `n`
+    bytes from there — for EVERY count `0 ≤ n < 2^31` (e.g. `INT_MAX`) and every start `-len ≤ i < 2^31`; the model
+    computes the indices with the code's own `int` additions (`wrap32`), none of which wraps (repaired in 98ce166;
+    before, `AslProofs.Str.substr_unrepaired_counterexample`) -/
+theorem substr_is_slice {r : Rep} {s : Bytes} (h : Models r s) (i n : Int) (hlen : (s.length : Int) < 2147483648)
+    (hi : -(s.length : Int) ≤ i) (hi2 : i < 2147483648) (hn : 0 ≤ n) (hn2 : n < 2147483648) :
+    ∃ r', r.substr i n = some r' ∧ Models r' ((s.drop (if i < 0 then i + s.length else i).toNat).take n.toNat) :=
+  substr_spec h i n hlen hi hi2 hn hn2
 
 theorem concat_is_append {r : Rep} {s b : Bytes} (h : Models r s) (hb : NulFree b) :
     ∃ r', r.concat b = some r' ∧ Models r' (s ++ b) := concat_spec h hb
@@ -176,9 +174,19 @@ theorem lastIndexOf_rightmost (s pat : Bytes) (hp : pat ≠ []) :
   · rw [hr]
     exact ⟨fun k0 h => (by cases h; exact ⟨hocc, hmax⟩), fun h => (by cases h)⟩
 
-/-- `compare`/`operator<`/`==` (strcmp, memcmp) order strings lexicographically by unsigned bytes -/
+/-- libc `strcmp` (as modelled) orders byte strings lexicographically by unsigned bytes -/
 theorem compare_lex (a b : Bytes) :
     (strcmp a b = -1 ∧ a < b) ∨ (strcmp a b = 0 ∧ a = b) ∨ (strcmp a b = 1 ∧ b < a) := strcmp_spec a b
+
+/-- the comparison operators on two Strings: `==` (length test + `memcmp`) and `!=` decide equality of the texts,
+    `<` / `compare` (strcmp) decide the lexicographic order, `==(const char*)` decides equality with a C string -/
+theorem comparison_ops {r r' : Rep} {s t : Bytes} (h : Models r s) (h' : Models r' t) :
+    (r.eq r' = true ↔ s = t) ∧ (r.ne r' = true ↔ s ≠ t) ∧ (r.lt r' = true ↔ s < t) ∧
+    ((r.compare r' < 0 ↔ s < t) ∧ (r.compare r' = 0 ↔ s = t)) ∧ (∀ u, r.eqCStr u = true ↔ s = u) := by
+  refine ⟨eq_iff h h', ?_, lt_iff h h', ⟨?_, ?_⟩, fun u => eqCStr_iff h u⟩
+  · rw [ne_eq_not_eq, Bool.not_eq_true', ← Bool.not_eq_true, eq_iff h h']
+  · unfold Rep.compare; rw [h.view, h'.view]; exact strcmp_lt_iff s t
+  · unfold Rep.compare; rw [h.view, h'.view]; exact strcmp_eq_iff s t
 
 /-! ## split / join / replace -/
 
@@ -253,6 +261,37 @@ theorem decimal_digits (n : Nat) :
   · intro c hc; simp at hc; subst hc; decide
   · intro c hc; exact digitsRev_digits n c (by simpa using hc)
 
+/-- the number texts are canonical decimal: `%u`/`%llu` text is Lean's `Nat.repr` (so: digits only, no leading zero
+    unless the number is 0), and `myitoa` / `myltoa` write an optional `-` followed by that text of the magnitude,
+    for every `int` / `Long` (`INT_MIN`, `LLONG_MIN` included) -/
+theorem decimal_canonical :
+    (∀ n, String.ofList ((utoa n).map ascii) = Nat.repr n) ∧
+    (∀ n, n ≠ 0 → (utoa n).head? ≠ some 48) ∧ utoa 0 = [48] ∧
+    (∀ x : Int, -2147483648 ≤ x → x < 2147483648 → myitoa x = if x < 0 then 45 :: utoa (-x).toNat else utoa x.toNat) ∧
+    (∀ x : Int, -9223372036854775808 ≤ x → x < 9223372036854775808 →
+      myltoa x = if x < 0 then 45 :: utoa (-x).toNat else utoa x.toNat) :=
+  ⟨utoa_repr, utoa_no_leading_zero, rfl, myitoa_shape, myltoa_shape⟩
+
+/-! ## floating point: what is algebraic
+
+`String(float)` / `String(double)` store the text libc's `%.7g` / `%.15g` produced (a parameter of the model, like
+`vsnprintf`'s output): in bounds whenever that text has the length libc guarantees.  `myatof` (operator float) is the
+model shared with C18 (`AslModel.Csv.atofDec`): on a well-formed number text it extracts exactly sign, all mantissa
+digits as one integer and the decimal exponent.  The three floating-point operations that follow
+(`double(y1) * pow(10.0, exp) * m`), libc `atof`/`strtod` and the `%g` formatting itself have no theorem: K only. -/
+
+theorem float_ctor_spec (text : Bytes) (hn : NulFree text) :
+    (text.length < (alloc Gen.Str.floatAlloc).cap → ∃ r, ofFloat text = some r ∧ Models r text) ∧
+    (text.length < Gen.Str.doubleStack → ∃ r, ofDouble text = some r ∧ Models r text) :=
+  ⟨ofFloat_spec text hn, ofDouble_spec text hn⟩
+
+/-- `myatof` on a number text `[-]digits[.digits][(e|E)[+|-]digits]` (`C18Spec.Num`): the sign, the integer made of all
+    mantissa digits, and `exponent − number of fraction digits` (proved in `AslProofs/CsvNum.lean`, shared with C18) -/
+theorem myatof_decomposition (n : C18Spec.Num) (h : n.WF) :
+    AslModel.Csv.atofDec n.text = { neg := n.neg, mant := (C18Spec.natVal (n.ip ++ n.fracDigits) : Int),
+                                    exp := n.expVal - (n.fracDigits.length : Int) } :=
+  AslProofs.Csv.atofDec_text n h
+
 /-! ## printf-style constructors -/
 
 /-- `String(n, fmt, …)` and `String::f(fmt, …)`: for ANY complete output `text` of `vsnprintf` and any initial size
@@ -261,22 +300,38 @@ theorem printf_retry_total (text : Bytes) (hn : NulFree text) :
     (∀ n0, ∃ r, ofFormat n0 text = some r ∧ Models r text) ∧ (∃ r, ofF text = some r ∧ Models r text) :=
   ⟨fun n0 => ofFormat_spec n0 text hn, ofF_spec text hn⟩
 
-/-- at most two `vsnprintf` attempts are ever needed: the constructor computes the same as a loop with one retry -/
+/-- at most two `vsnprintf` attempts are ever needed by `String(n, fmt, …)`: the constructor computes the same as a
+    loop with one retry -/
 theorem printf_two_attempts (text : Bytes) (hn : NulFree text) (n0 : Nat) :
     ofFormat n0 text = fmtLoop text 1 (alloc (if n0 = 0 then Gen.Str.fmtDefault else n0)) :=
   ofFormat_two_attempts n0 text hn
 
+/-- … and by `String::f`: a text shorter than its stack buffer costs one `vsnprintf` (then `assign`); a longer one the
+    failed stack attempt, one `resize` and exactly one more `vsnprintf` (`fmtLoop … 0` is a single attempt, no retry) -/
+theorem printf_f_two_attempts (text : Bytes) (hn : NulFree text) :
+    (text.length < Gen.Str.fSpace → ofF text = (Rep.empty.assign (.ext text)).map fun s => { s with len := text.length }) ∧
+    (text.length ≥ Gen.Str.fSpace → ofF text = (Rep.empty.resize text.length false).bind fun s => fmtLoop text 0 s) :=
+  ofF_two_attempts text hn
+
 /-! ## whitespace split, character search, prefix/suffix tests -/
 
-/-- `split()` returns the maximal runs of non-blank bytes, in order -/
-theorem split_whitespace (s : Bytes) : splitWs s = tokensAbs s := splitWs_eq s
+/-- `split()` on the representation (`a << substring(i, j)` for each token): in bounds, every token a well-formed
+    String, and the tokens are the maximal runs of non-blank bytes, in order -/
+theorem split_whitespace {r : Rep} {s : Bytes} (h : Models r s) :
+    ∃ l, r.splitWs = some l ∧ AllModels l (tokensAbs s) := splitWs_rep h
 
-/-- `indexOf(char)` = first, `lastIndexOf(char)` = last position holding the byte (−1 = `none` when absent) -/
+/-- `indexOf(char c, int i0)` = first position at or after `i0`, `lastIndexOf(char)` = last position holding the byte
+    (−1 = `none` exactly when there is none) -/
 theorem char_search (s : Bytes) (c : UInt8) (hc : c ≠ 0) :
+    (∀ i0 k, indexOfChar s c i0 = some k →
+      i0 ≤ k ∧ k < s.length ∧ s.getD k 0 = c ∧ ∀ k', i0 ≤ k' → k' < k → s.getD k' 0 ≠ c) ∧
+    (∀ i0, indexOfChar s c i0 = none → ∀ k', i0 ≤ k' → k' < s.length → s.getD k' 0 ≠ c) ∧
     (∀ k, strchr c s = some k → k < s.length ∧ s.getD k 0 = c ∧ ∀ k', k' < k → s.getD k' 0 ≠ c) ∧
     (strchr c s = none → c ∉ s) ∧
-    (∀ k, strrchr c s = some k → k < s.length ∧ s.getD k 0 = c ∧ ∀ k', k < k' → k' < s.length → s.getD k' 0 ≠ c) :=
-  ⟨fun _ h => strchr_some hc h, strchr_none, fun _ h => strrchr_some hc h⟩
+    (∀ k, strrchr c s = some k → k < s.length ∧ s.getD k 0 = c ∧ ∀ k', k < k' → k' < s.length → s.getD k' 0 ≠ c) ∧
+    (strrchr c s = none → c ∉ s) :=
+  ⟨fun _ _ h => indexOfChar_some hc h, fun _ h => indexOfChar_none h, fun _ h => strchr_some hc h, strchr_none,
+   fun _ h => strrchr_some hc h, strrchr_none⟩
 
 /-- `startsWith` / `endsWith` decide "is a prefix" / "is a suffix" -/
 theorem starts_ends {r : Rep} {s : Bytes} (h : Models r s) (p : Bytes) :
@@ -309,6 +364,10 @@ theorem gen_long_storage : Gen.Str.longInlineBelow ≤ 1000000000000000 ∧ Gen.
 theorem gen_printf_loops : 2 ≤ Gen.Str.fmtTries ∧ 2 ≤ Gen.Str.fTries ∧ Gen.Str.fSpace ≤ Gen.Str.fStack ∧ 0 < Gen.Str.fSpace :=
   gen_printf
 
+/-- `String(float)`: the storage obtained holds the longest `%.7g` text of a float (13 characters, e.g. `-1.401298e-45`);
+    `String(double)`: the stack buffer holds the longest `%.15g` text (24 characters, e.g. `-2.22507385850720e-308`) -/
+theorem gen_float_storage : 13 < (alloc Gen.Str.floatAlloc).cap ∧ 24 < Gen.Str.doubleStack := gen_float
+
 /-- the `INT_MIN` literal of `myitoa` reads back as −2^31, has no NUL and the length the code returns -/
 theorem gen_int_min_literal : myatoi Gen.Str.intMinText = -2147483648 ∧ (∀ c ∈ Gen.Str.intMinText, c ≠ 0) ∧
     Gen.Str.intMinText.length ≤ 11 ∧ Gen.Str.intMinLen = Gen.Str.intMinText.length := gen_intmin
@@ -327,6 +386,8 @@ example : (do let r ← ofBytes [48, 49, 50, 51, 52, 53, 54, 55, 56, 57]; let r'
 
 example : splitAbs [44] [] [97, 44, 44, 98] = [[97], [], [98]] := by decide +kernel
 example : replaceAbs [97, 97] [98] [97, 97, 97, 97, 97] = [98, 98, 97] := by decide +kernel
+example : substrIdx 11 1 2147483647 = some (1, 11) ∧ substrIdxUnrepaired 11 1 2147483647 = none :=
+  ⟨substr_unrepaired_counterexample.2, substr_unrepaired_counterexample.1⟩
 example : tokensAbs [32, 97, 98, 9, 9, 99, 10] = [[97, 98], [99]] := by decide +kernel
 example : Mut.Valid (.append [97]) := by intro c hc; simp at hc; subst hc; decide
 example : myltoa (-9223372036854775808) = [45, 57, 50, 50, 51, 51, 55, 50, 48, 51, 54, 56, 53, 52, 55, 55, 53, 56, 48, 56] := by
